@@ -24,7 +24,7 @@ from .c03 import gen_cdda_model
 PROP = "C04"
 LEVEL = "exploration"
 RUNS = {"quick": 1400, "thorough": 60000}
-TIME_CAP = {"quick": 300, "thorough": 1500}
+TIME_CAP = {"quick": 300, "thorough": 900}
 CHUNK = 8          # runs per worker task (cost-aware: keeps the time cap responsive)
 RULE = ("four arms: (a) AKAI volumes of samples whose root-key, semitone and cents bytes and loop tables are drawn from corner values "
         "(loop_at 0 / 1 / n, length > at, duration 0/1/9998/9999/65535, 0-8 active loops, every loop type) and uniformly - the full 2^24 "
